@@ -102,27 +102,33 @@ pub fn vx_clone_cap(c: &VxCap) -> (r: VxCap) ensures r.g1@ == c.g1@, r.g2@ == c.
 // ghost: how many inner commands were planned and run
 // op_words: the unquoted words (other than NAME=value assignment words, which are taken off the line before operators are looked for)
 // into which an inner command's output brought an operator character (C13)
-pub ghost struct SubLog { pub planned: int, pub ran: int, pub op_words: Set<int> }
+pub ghost struct SubLog { pub planned: int, pub ran: int, pub op_words: Set<int>, pub order: Seq<int> }
 impl CommandLine {
     #[verifier::external_body]
     pub fn from_line(line: &str, sh: &mut Shell, Tracked(lg): Tracked<&mut SubLog>) -> (r: Result<CommandLine, String>)
-        ensures final(lg).planned == old(lg).planned + 1, final(lg).ran == old(lg).ran, final(lg).op_words == old(lg).op_words
+        ensures final(lg).planned == old(lg).planned + 1, final(lg).ran == old(lg).ran, final(lg).op_words == old(lg).op_words, final(lg).order == old(lg).order
     { unimplemented!() }
 }
 // ghost bookkeeping only: record that word k received an operator character from an output
 #[verifier::external_body]
 pub proof fn note_op_word(tracked lg: &mut SubLog, k: int)
-    ensures final(lg).op_words == old(lg).op_words.insert(k), final(lg).planned == old(lg).planned, final(lg).ran == old(lg).ran
+    ensures final(lg).op_words == old(lg).op_words.insert(k), final(lg).planned == old(lg).planned, final(lg).ran == old(lg).ran, final(lg).order == old(lg).order
+{ unimplemented!() }
+// ghost bookkeeping only: pass `id` (0 = backquote pass, 1 = $(..) pass) starts
+#[verifier::external_body]
+pub proof fn note_pass(tracked lg: &mut SubLog, id: int)
+    ensures final(lg).order == old(lg).order.push(id), final(lg).planned == old(lg).planned, final(lg).ran == old(lg).ran, final(lg).op_words == old(lg).op_words
 { unimplemented!() }
 #[verifier::external_body]
 pub fn run_pipeline(sh: &mut Shell, cl: &CommandLine, tty: bool, capture: bool, log_cmd: bool, Tracked(lg): Tracked<&mut SubLog>) -> (r: (bool, CommandResult))
-    ensures final(lg).ran == old(lg).ran + 1, final(lg).planned == old(lg).planned, final(lg).op_words == old(lg).op_words
+    ensures final(lg).ran == old(lg).ran + 1, final(lg).planned == old(lg).planned, final(lg).op_words == old(lg).op_words, final(lg).order == old(lg).order
 { unimplemented!() }
 #[verifier::external_body]
 pub fn vx_take_terminal_back() { unimplemented!() }
 
 //@FN do_command_substitution_for_dollar
 //@FN do_command_substitution_for_dot
+//@FN do_command_substitution
 ''' + common.TAIL
 
 S = 'src/shell.rs'
@@ -187,7 +193,8 @@ dollar = Fn(S, 'do_command_substitution_for_dollar', props=('C11',),
     ],
     add_params='Tracked(lg): Tracked<&mut SubLog>',
     ghost_args={'from_line': 'Tracked(lg)', 'run_pipeline': 'Tracked(lg)'},
-    hints={'after-call:replace':
+    hints={'fn-entry': 'note_pass(lg, 1);',
+           'after-call:replace':
            'LABEL:C11.dollar.step_inserts_the_output_literally_between_head_and_tail: '
            'assert(result@ == spec_sub_head(line_@) + spec_trim(cmd_result.stdout@) + spec_sub_tail(line_@));',
            # ghost record, taken from the data flow (not from the code's own flag): this word received an operator character from an output
@@ -199,23 +206,24 @@ dollar = Fn(S, 'do_command_substitution_for_dollar', props=('C11',),
         ('C11+C13+C01.dollar.only_unquoted_words_with_a_substitution_change', frame(DCOND.replace('T', 'old(tokens)@[k]'))),
         ('C11.dollar.inner_command_run_once_per_planning', 'final(lg).ran - old(lg).ran <= final(lg).planned - old(lg).planned'),
         ('C13.dollar.operator_characters_of_an_output_are_data', data_clause()),
+        ('C11.dollar.pass_id', 'final(lg).order == old(lg).order.push(1)'),
     ],
     loops={
         0: Loop(invariant=[
-            ('C11.inv.dollar.idx', 'idx == __I && tokens@ == old(tokens)@ && lg.ran - old(lg).ran <= lg.planned - old(lg).planned'),
+            ('C11.inv.dollar.idx', 'idx == __I && tokens@ == old(tokens)@ && lg.ran - old(lg).ran <= lg.planned - old(lg).planned && lg.order == old(lg).order.push(1)'),
             ('C11+C13.inv.dollar.buff', 'forall|kk: int| umap(buff).contains_key(kk) ==> 0 <= kk < __I && ' + DCOND.replace('T', 'tokens@[kk]')),
             ('C13.inv.dollar.words', words_inv('tokens@', '__I', DCOND)),
             ('C13.inv.dollar.ops', OPS),
         ]),
         1: Loop(invariant=[
-            ('C11.inv.dollar.once', 'lg.ran - old(lg).ran <= lg.planned - old(lg).planned'),
+            ('C11.inv.dollar.once', 'lg.ran - old(lg).ran <= lg.planned - old(lg).planned && lg.order == old(lg).order.push(1)'),
             ('C13.inv.dollar.ops_inner', 'forall|k: int| lg.op_words.contains(k) ==> old(lg).op_words.contains(k) || in_words(data_words@, k) || (k == idx as int && got_operator && sep@.len() == 0 && !spec_is_assign(token@))'),
         ], decreases='spec_subst_count(line@)'),
         2: Loop(invariant=[
             ('C11+C13.inv.dollar.frame', 'tokens@.len() == old(tokens)@.len() && forall|k: int| 0 <= k < tokens@.len() ==> (#[trigger] tokens@[k]).0@ == old(tokens)@[k].0@ '
                                          '&& (!(' + DCOND.replace('T', 'old(tokens)@[k]') + ') ==> tokens@[k].1@ == old(tokens)@[k].1@)'),
             ('C11+C13.inv.dollar.entries', 'forall|i: int| 0 <= i < __entries@.len() ==> (#[trigger] __entries@[i]).0 < tokens@.len() && ' + DCOND.replace('T', 'old(tokens)@[__entries@[i].0 as int]')),
-            ('C11.inv.dollar.once2', 'lg.ran - old(lg).ran <= lg.planned - old(lg).planned'),
+            ('C11.inv.dollar.once2', 'lg.ran - old(lg).ran <= lg.planned - old(lg).planned && lg.order == old(lg).order.push(1)'),
             ('C13.inv.dollar.words2', words_inv('old(tokens)@', 'tokens@.len()', DCOND)),
             ('C13.inv.dollar.ops2', OPS),
         ]),
@@ -223,7 +231,7 @@ dollar = Fn(S, 'do_command_substitution_for_dollar', props=('C11',),
             ('C11+C13.inv.dollar.frame3', frame_inv(DCOND)),
             ('C13.inv.dollar.tagged', 'forall|j: int| 0 <= j < __I ==> tokens@[(#[trigger] data_words@[j]) as int].0@ == "\\""@'),
             ('C13.inv.dollar.words3', words_inv('old(tokens)@', 'tokens@.len()', DCOND)),
-            ('C13.inv.dollar.ops3', '(' + OPS + ') && lg.ran - old(lg).ran <= lg.planned - old(lg).planned'),
+            ('C13.inv.dollar.ops3', '(' + OPS + ') && lg.ran - old(lg).ran <= lg.planned - old(lg).planned && lg.order == old(lg).order.push(1)'),
         ]),
     },
 )
@@ -241,7 +249,8 @@ dot = Fn(S, 'do_command_substitution_for_dot', props=('C11',),
     add_params='Tracked(lg): Tracked<&mut SubLog>',
     ghost_args={'from_line': 'Tracked(lg)', 'run_pipeline': 'Tracked(lg)'},
     loop_kinds={2: 'value', (2, 'clone'): 'vx_clone_cap(&{})'},
-    hints={'after-call:vx_trim': 'if has_op(spec_trim(cr.stdout@)) && sep@.len() == 0 && !spec_is_assign(token@) { note_op_word(lg, idx as int); }',
+    hints={'fn-entry': 'note_pass(lg, 0);',
+           'after-call:vx_trim': 'if has_op(spec_trim(cr.stdout@)) && sep@.len() == 0 && !spec_is_assign(token@) { note_op_word(lg, idx as int); }',
            'before-text:data_words.push(idx);': 'lemma_in_words_push(data_words@, idx);',
            'loop-0-body-entry': 'reveal_strlit("`"); assert("`"@.len() == 1);',
            'loop-4-body-entry': 'lemma_quote_lit();',
@@ -250,20 +259,21 @@ dot = Fn(S, 'do_command_substitution_for_dot', props=('C11',),
         ('C11+C13+C01.dot.only_backquoted_or_embedded_backquote_words_change', frame(DCOND2.replace('T', 'old(tokens)@[k]'))),
         ('C11.dot.inner_command_run_once_per_planning', 'final(lg).ran - old(lg).ran <= final(lg).planned - old(lg).planned'),
         ('C13.dot.operator_characters_of_an_output_are_data', data_clause()),
+        ('C11.dot.pass_id', 'final(lg).order == old(lg).order.push(0)'),
     ],
     loops={
         0: Loop(invariant=[
-            ('C11.inv.dot.idx', 'idx == __I && tokens@ == old(tokens)@ && lg.ran - old(lg).ran <= lg.planned - old(lg).planned'),
+            ('C11.inv.dot.idx', 'idx == __I && tokens@ == old(tokens)@ && lg.ran - old(lg).ran <= lg.planned - old(lg).planned && lg.order == old(lg).order.push(0)'),
             ('C11+C13.inv.dot.buff', 'forall|kk: int| umap(buff).contains_key(kk) ==> 0 <= kk < __I && (' + DCOND2.replace('T', 'tokens@[kk]') + ')'),
             ('C13.inv.dot.words', words_inv('tokens@', '__I', DCOND2)),
             ('C13.inv.dot.ops', OPS),
         ]),
-        1: Loop(invariant=[('C11.inv.dot.once', 'lg.ran - old(lg).ran <= lg.planned - old(lg).planned'),
+        1: Loop(invariant=[('C11.inv.dot.once', 'lg.ran - old(lg).ran <= lg.planned - old(lg).planned && lg.order == old(lg).order.push(0)'),
                            ('C13.inv.dot.cur', CUR),
                            ('C13.inv.dot.words_l1', words_inv('tokens@', 'idx + 1', DCOND2)),
                            ('C13.inv.dot.ops_l1', OPS)],
                 invariant_except_break=[('C11.inv.dot.tail', 'true')], decreases='_token@.len()'),
-        2: Loop(invariant=[('C11.inv.dot.once2', 'lg.ran - old(lg).ran <= lg.planned - old(lg).planned && (forall|q: int| 0 <= q < __V@.len() ==> (#[trigger] __V@[q]).g3@.len() < _token@.len()) '
+        2: Loop(invariant=[('C11.inv.dot.once2', 'lg.ran - old(lg).ran <= lg.planned - old(lg).planned && lg.order == old(lg).order.push(0) && (forall|q: int| 0 <= q < __V@.len() ==> (#[trigger] __V@[q]).g3@.len() < _token@.len()) '
                                                '&& (__I > 0 ==> _tail@.len() < _token@.len())'),
                            ('C13.inv.dot.cur2', CUR),
                            ('C13.inv.dot.words_l2', words_inv('tokens@', 'idx + 1', DCOND2)),
@@ -272,7 +282,7 @@ dot = Fn(S, 'do_command_substitution_for_dot', props=('C11',),
             ('C11+C13.inv.dot.frame', 'tokens@.len() == old(tokens)@.len() && forall|k: int| 0 <= k < tokens@.len() ==> (#[trigger] tokens@[k]).0@ == old(tokens)@[k].0@ '
                                       '&& (!(' + DCOND2.replace('T', 'old(tokens)@[k]') + ') ==> tokens@[k].1@ == old(tokens)@[k].1@)'),
             ('C11+C13.inv.dot.entries', 'forall|i: int| 0 <= i < __entries@.len() ==> (#[trigger] __entries@[i]).0 < tokens@.len() && (' + DCOND2.replace('T', 'old(tokens)@[__entries@[i].0 as int]') + ')'),
-            ('C11.inv.dot.once3', 'lg.ran - old(lg).ran <= lg.planned - old(lg).planned'),
+            ('C11.inv.dot.once3', 'lg.ran - old(lg).ran <= lg.planned - old(lg).planned && lg.order == old(lg).order.push(0)'),
             ('C13.inv.dot.words3', words_inv('old(tokens)@', 'tokens@.len()', DCOND2)),
             ('C13.inv.dot.ops3', OPS),
         ]),
@@ -280,12 +290,18 @@ dot = Fn(S, 'do_command_substitution_for_dot', props=('C11',),
             ('C11+C13.inv.dot.frame4', frame_inv(DCOND2)),
             ('C13.inv.dot.tagged', 'forall|j: int| 0 <= j < __I ==> tokens@[(#[trigger] data_words@[j]) as int].0@ == "\\""@'),
             ('C13.inv.dot.words4', words_inv('old(tokens)@', 'tokens@.len()', DCOND2)),
-            ('C13.inv.dot.ops4', '(' + OPS + ') && lg.ran - old(lg).ran <= lg.planned - old(lg).planned'),
+            ('C13.inv.dot.ops4', '(' + OPS + ') && lg.ran - old(lg).ran <= lg.planned - old(lg).planned && lg.order == old(lg).order.push(0)'),
         ]),
     },
 )
 
-UNIT = Unit('U-EXP3', TEMPLATE, fns=[common.has_operator_fn(), dollar, dot, Fn('src/types.rs', 'new', impl='CommandResult')],
+# the $(..) pass runs LAST: what it inserts is not looked at by the backquote pass any more (an output containing backquotes stays literal)
+both = Fn(S, 'do_command_substitution', add_params='Tracked(lg): Tracked<&mut SubLog>',
+    pre_rewrites=[Rw('types::Tokens', 'Tokens', required=False, rule='R0')],
+    ghost_args={'do_command_substitution_for_dot': 'Tracked(lg)', 'do_command_substitution_for_dollar': 'Tracked(lg)'},
+    ensures=[('C11.subst.backquote_pass_first_then_the_dollar_pass', 'final(lg).order == old(lg).order.push(0).push(1)')])
+
+UNIT = Unit('U-EXP3', TEMPLATE, fns=[common.has_operator_fn(), dollar, dot, both, Fn('src/types.rs', 'new', impl='CommandResult')],
             types=[TypeItem('src/types.rs', 'struct', 'Command'), TypeItem('src/types.rs', 'struct', 'CommandLine'), TypeItem('src/types.rs', 'struct', 'CommandResult')],
             props=('C11', 'C13', 'C01', 'C05'))
 TRUSTED = common.TRUSTED_STR + common.TRUSTED_TOKEN + [
